@@ -28,6 +28,10 @@ def a_side(r, cls, n):
     return fam.spec, rows.arrs["X"]
 
 
+def kw_pre(mode, eps):
+    return dict(match_tracking=mode, epsilon=eps)
+
+
 def run(ctx):
     cov = ctx.cov
     N = ctx.scale(360, 8000)
@@ -68,8 +72,21 @@ def run(ctx):
         kw = dict(match_tracking=mode, epsilon=eps)
         parts = gen.compositions(r, n)
         epochs = r.choice([1, 1, 1, 2, 3])
-        style = r.choice(["fit", "pfit"])
+        style = r.choice(["fit", "pfit", "refit"])
         calls = [("fit", 0, n)] if style == "fit" else []
+        if style == "refit":
+            # an earlier history with OTHER labels on the same estimator, then the fit under test
+            try:
+                with quiet():
+                    if use_artmap:
+                        est.fit(X[::-1].copy(), y[::-1].copy(), **kw_pre(mode, eps))
+                    else:
+                        est.fit(X, (np.asarray(y) + 1 + r.randrange(3)) % (kcls + 2), **kw_pre(mode, eps))
+            except Exception as e:
+                ctx.issue("violation", f"{spec['cls']}({acls}).fit:{exc_enum(e)}", f"first fit raised {e!r}", desc)
+                continue
+            calls = [("fit", 0, n)]
+            cov.hit("refit-with-other-labels")
         if style == "pfit":
             j = 0
             for p in parts:
